@@ -456,6 +456,9 @@ struct Chunked<'a> {
     pos: usize,
     sizes: Vec<usize>,
     i: usize,
+    /// what is left of the current chunk (a read that takes less than the chunk leaves the rest for the
+    /// next read, as in Model/FrameChunk.v `read_n`)
+    chunk_left: usize,
 }
 impl tokio::io::AsyncRead for Chunked<'_> {
     fn poll_read(
@@ -465,12 +468,15 @@ impl tokio::io::AsyncRead for Chunked<'_> {
     ) -> std::task::Poll<std::io::Result<()>> {
         let left = self.data.len() - self.pos;
         if left > 0 && buf.remaining() > 0 {
-            let want = self.sizes[self.i % self.sizes.len()].max(1);
-            let k = want.min(left).min(buf.remaining());
+            if self.chunk_left == 0 {
+                self.chunk_left = self.sizes[self.i % self.sizes.len()].max(1).min(left);
+                self.i += 1;
+            }
+            let k = self.chunk_left.min(left).min(buf.remaining());
             let (a, b) = (self.pos, self.pos + k);
             buf.put_slice(&self.data[a..b]);
             self.pos = b;
-            self.i += 1;
+            self.chunk_left -= k;
         }
         std::task::Poll::Ready(Ok(()))
     }
@@ -491,13 +497,15 @@ fn decode_chunked(cfg: &Cfg, stream: &[u8]) -> String {
         4 => (0..16).map(|_| r.range(1, 5) as usize).collect(),
         _ => (0..16).map(|_| r.range(1, 64) as usize).collect(),
     };
-    let mut reader = Chunked { data: stream, pos: 0, sizes, i: 0 };
+    let sch = sizes.iter().map(|x| x.to_string()).collect::<Vec<_>>().join(".");
+    let mut reader = Chunked { data: stream, pos: 0, sizes, i: 0, chunk_left: 0 };
     let first = decode_reader(cfg, &mut reader);
     let second = match futures::executor::block_on(read_response_frame(&mut reader)) {
         Ok((p, op, body)) => format!("ok:{}:{}:{}:{}", p.flags, p.stream, op as u8, hx(&body)),
         Err(e) => format!("err:{}", header_class(&e)),
     };
-    format!("{} q2={}", first, second)
+    // sch = the chunk sizes (cyclic): an input of the model's chunked reader, not an output
+    format!("{} q2={} sch={}", first, second, sch)
 }
 fn header_class(e: &FrameHeaderParseError) -> &'static str {
     match e {
@@ -716,7 +724,12 @@ fn run_case(case: &str) -> String {
     // self-test kinds (replay only, never generated): the watchdog must attribute each to its input
     match f[0] {
         "Xabort" => std::process::abort(),
+        // a decoder that does not terminate burns CPU (the repaired hangs did); a process that merely does
+        // not get to run (Xsleep) is the machine's doing: `notrun env-stall`
         "Xhang" => loop {
+            std::hint::black_box(0u64);
+        },
+        "Xsleep" => loop {
             std::thread::sleep(std::time::Duration::from_secs(1));
         },
         "Xstack" => {
@@ -778,8 +791,8 @@ fn small_stack() -> usize {
     std::env::var("VERIF_C08_SMALL_STACK_KB").ok().and_then(|v| v.parse::<usize>().ok()).unwrap_or(512) << 10
 }
 /// Every case is decoded on a 2 MiB-stack thread (Tokio's default worker stack; this is the run that is
-/// measured and reported) and, unless `bigonly`, once more on a 256 KiB-stack thread: the recursion
-/// depth accounting of the model (<= 257 levels) predicts that an eighth of the stack is plenty.
+/// measured and reported) and, unless `bigonly`, once more on a 512 KiB-stack thread (VERIF_C08_SMALL_STACK_KB):
+/// the recursion depth accounting of the model (<= 257 levels) predicts that a quarter of the stack is plenty.
 fn child_main(file: &str, start: usize, end: usize, bigonly: bool) {
     use std::io::BufRead as _;
     let f = std::io::BufReader::new(std::fs::File::open(file).unwrap());
@@ -827,7 +840,20 @@ struct Child {
 enum Got {
     Line(String),
     Timeout,
+    /// no answer within the wall-clock cap although the child used less CPU time than the limit: the
+    /// machine (load, swap, SIGSTOP), not the decoders
+    Stall,
     Died(String),
+}
+/// CPU seconds (user + system, all threads) the process has used so far, from /proc/<pid>/stat
+fn cpu_seconds(pid: u32) -> Option<f64> {
+    let st = std::fs::read_to_string(format!("/proc/{}/stat", pid)).ok()?;
+    let rest = st.rsplit_once(')')?.1;
+    let f: Vec<&str> = rest.split_whitespace().collect();
+    // fields after "pid (comm)": state=0 ... utime=11 stime=12 (in clock ticks, 100 per second on Linux)
+    let ut: f64 = f.get(11)?.parse().ok()?;
+    let stt: f64 = f.get(12)?.parse().ok()?;
+    Some((ut + stt) / 100.0)
 }
 impl Child {
     /// None: the child did not come up within two minutes (environment trouble, not the decoders)
@@ -876,6 +902,32 @@ impl Child {
             }
         }
     }
+    /// "does not terminate" judged in CPU time: Timeout only when the child itself burnt `cpu_limit_s`
+    /// seconds on the input; a wall-clock wait of `wall_cap_s` with less CPU time than that is a Stall
+    fn get_cpu(&mut self, cpu_limit_s: u64, wall_cap_s: u64) -> Got {
+        let pid = self.ch.id();
+        let cpu0 = cpu_seconds(pid);
+        let t0 = std::time::Instant::now();
+        loop {
+            match self.get(1) {
+                Got::Timeout => {
+                    let used = match (cpu0, cpu_seconds(pid)) {
+                        (Some(a), Some(b)) => Some(b - a),
+                        _ => None,
+                    };
+                    if let Some(u) = used {
+                        if u >= cpu_limit_s as f64 {
+                            return Got::Timeout;
+                        }
+                    }
+                    if t0.elapsed().as_secs() >= wall_cap_s {
+                        return Got::Stall;
+                    }
+                }
+                g => return g,
+            }
+        }
+    }
     fn stop(&mut self) {
         let _ = self.ch.kill();
         let _ = self.ch.wait();
@@ -896,7 +948,8 @@ fn run_alone(exe: &std::path::Path, infile: &str, idx: usize, timeout_s: u64) ->
         match Child::start(exe, infile, idx, idx + 1, bigonly) {
             None => Got::Died("env-child-start".into()),
             Some(mut c) => {
-                let g = c.get(timeout_s);
+                // the limit is CPU time of the child; ten times that in wall-clock time before giving up
+                let g = c.get_cpu(timeout_s, 10 * timeout_s);
                 c.stop();
                 g
             }
@@ -906,13 +959,19 @@ fn run_alone(exe: &std::path::Path, infile: &str, idx: usize, timeout_s: u64) ->
     match one(false) {
         Got::Line(l) => strip(l),
         Got::Timeout => "timeout m=0 t=0 s=-".into(),
+        Got::Stall => "notrun env-stall m=0 t=0 s=-".into(),
         Got::Died(how) if how == "env-child-start" => "notrun env-child-start m=0 t=0 s=-".into(),
-        Got::Died(how) => match one(true) {
-            // the measured 2 MiB run is fine: it was the 256 KiB run that died
+        // killed from outside: says nothing about either run; one more attempt, then not-run
+        Got::Died(how) if env_signal(&how) => match one(false) {
+            Got::Line(l) => strip(l),
+            _ => format!("notrun env-{} m=0 t=0 s=-", how),
+        },
+        Got::Died(_how) => match one(true) {
+            // the measured 2 MiB run is fine: it was the small-stack run that died
             Got::Line(l) => strip(l).replace(" s=-", " s=overflow"),
             Got::Timeout => "timeout m=0 t=0 s=-".into(),
+            Got::Stall => "notrun env-stall m=0 t=0 s=-".into(),
             Got::Died(how2) if env_signal(&how2) || how2 == "env-child-start" => format!("notrun env-{} m=0 t=0 s=-", how2),
-            Got::Died(_) if env_signal(&how) => format!("notrun env-{} m=0 t=0 s=-", how),
             Got::Died(how2) => format!("abort {} m=0 t=0 s=-", how2),
         },
     }
@@ -961,7 +1020,7 @@ fn run_in_children(cases: &[String], infile: &str, per_input_timeout_s: u64, wor
                                 break;
                             }
                         }
-                        Got::Timeout | Got::Died(_) => {
+                        Got::Timeout | Got::Stall | Got::Died(_) => {
                             ch.stop();
                             if next < hi {
                                 res.push((next, run_alone(&exe, &infile, next, 3 * per_input_timeout_s)));
@@ -1190,6 +1249,7 @@ fn custom_type_cases(r: &mut Rng) -> Vec<String> {
     let m = "org.apache.cassandra.db.marshal.";
     let good: Vec<String> = vec![
         format!("{m}VectorType({m}FloatType , 3)"),
+        format!("{m}VectorType({m}Int32Type, 3)"),
         format!("{m}VectorType({m}UTF8Type,2)"),
         "VectorType(VectorType(Int32Type,2),4)".into(),
         format!("{m}ListType({m}VectorType({m}Int32Type, 3))"),
@@ -1225,6 +1285,21 @@ fn custom_type_cases(r: &mut Rng) -> Vec<String> {
         f[5..9].copy_from_slice(&l.to_be_bytes());
         format!("S {} 2n {}", FT0, hex_bytes(&f))
     };
+    // vector<int, 3> under the typed target Vec<Option<i32>> (Vec<T>::type_check accepts vectors): cells of
+    // 12 bytes, 8 (exhausted slice = null element), 16 (rest ignored), 0, 6 and 13 (element cut: error)
+    for cell in [12usize, 8, 16, 0, 6, 13, 4, 3] {
+        let mut ty = be16(0).to_vec();
+        ty.extend_from_slice(&s16(format!("{m}VectorType({m}Int32Type, 3)").as_bytes()));
+        let mut f = rows_with_type(&ty);
+        let n = f.len();
+        f[n - 4..].copy_from_slice(&be32(2));
+        f.extend_from_slice(&be32(cell as i32));
+        f.extend((0..cell).map(|i| (i * 37 + 1) as u8));
+        f.extend_from_slice(&be32(-1));
+        let l = (f.len() - 9) as u32;
+        f[5..9].copy_from_slice(&l.to_be_bytes());
+        out.push(format!("S {} 2n {}", FT0, hex_bytes(&f)));
+    }
     for g in &good {
         out.push(mk(g.as_bytes()));
         for _ in 0..40 {
@@ -1341,7 +1416,7 @@ fn gen_cases(a: &Args) -> Vec<String> {
     cases.extend(custom_type_cases(&mut r));
     // (a) well-formed frames from the extracted encoder
     let nbase = (a.n / 60).max(50);
-    let drv = std::env::var("VERIF_C08_DRIVER").unwrap_or_else(|_| "/verif/ocaml/c08/driver".into());
+    let drv = std::env::var("VERIF_C08_DRIVER").unwrap_or_else(|_| concat!(env!("CARGO_MANIFEST_DIR"), "/../ocaml/c08/driver").into()); // checks/c08.py passes <ROOT>/ocaml/c08/driver
     let out = std::process::Command::new(&drv)
         .args(["gen", &a.seed.to_string(), &nbase.to_string()])
         .output()
